@@ -12,6 +12,9 @@
 #include <ascon/xof.h>
 #include <ascon/siv.h>
 #include <ascon/isap.h>
+#include <ascon/aead.h>
+#include <ascon/prf.h>
+#include <ascon/hmac.h>
 #include <stdio.h>
 #include <stdlib.h>
 #include <string.h>
@@ -92,12 +95,63 @@ static void isap_ad(void) {
     munmap(ad, adlen);
 }
 
+/* ascon128a one-shot over 2^32+24 zero bytes against the incremental API fed 1 MiB at a time (the incremental functions are tied to the
+   model by the other streams): same tag, same ciphertext at probe offsets; one-shot decryption accepts and returns zeros */
+static void aead128a(void) {
+    size_t n = BIG + 24, clen = 0, mlen = 0, off; int bad = 0, r;
+    unsigned char *buf = map(n + 16), key[16], nonce[16], tag[16];
+    static unsigned char piece[1 << 20], probe[8][64];
+    ascon128a_state_t st; size_t done; int pi = 0;
+    memset(key, 0x55, 16); memset(nonce, 0x66, 16);
+    ascon128a_aead_encrypt(buf, &clen, buf, n, (const unsigned char *)"ad", 2, nonce, key);
+    ascon128a_aead_init(&st, nonce, key);
+    ascon128a_aead_start(&st, (const unsigned char *)"ad", 2);
+    for (done = 0; done < n; ) {
+        size_t c = n - done < sizeof(piece) ? n - done : sizeof(piece);
+        memset(piece, 0, c);
+        ascon128a_aead_encrypt_block(&st, piece, piece, c);
+        if ((done & (((size_t)1 << 29) - 1)) == 0 && pi < 8) { memcpy(probe[pi], piece, 64); if (memcmp(buf + done, probe[pi], 64) != 0) ++bad; ++pi; }
+        if (done + c == n && memcmp(buf + n - 24, piece + c - 24, 24) != 0) ++bad;
+        done += c;
+    }
+    ascon128a_aead_encrypt_finalize(&st, tag);
+    ascon128a_aead_free(&st);
+    verdict("aead128a-ciphertext", clen == n + 16 && bad == 0, "one-shot ciphertext of 2^32+24 bytes against the incremental API at probe offsets and at the end");
+    verdict("aead128a-tag", memcmp(buf + n, tag, 16) == 0, "one-shot tag against the incremental API");
+    r = ascon128a_aead_decrypt(buf, &mlen, buf, clen, (const unsigned char *)"ad", 2, nonce, key);
+    for (off = 0, bad = 0; off + 64 <= n; off += (size_t)1 << 27) { static const unsigned char z[64] = {0}; if (memcmp(buf + off, z, 64) != 0) ++bad; }
+    verdict("aead128a-roundtrip", r == 0 && mlen == n && bad == 0, "one-shot decryption accepts and returns the all-zero plaintext");
+    munmap(buf, n + 16);
+}
+
+/* PRF and HMAC: one call over 2^32+5 bytes against the same bytes in two calls; the last byte must matter */
+static void prf_hmac(void) {
+    size_t m = BIG + 5; unsigned char *in = map(m), key[16], o1[32], o2[32], o3[32];
+    ascon_prf_state_t ps; ascon_hmac_state_t hs;
+    memset(key, 0x77, 16); in[4100] = 7; in[m - 1] = 9;
+    ascon_prf(o1, 32, in, m, key);
+    ascon_prf_init(&ps, key); ascon_prf_absorb(&ps, in, (size_t)1 << 31); ascon_prf_absorb(&ps, in + ((size_t)1 << 31), m - ((size_t)1 << 31));
+    ascon_prf_squeeze(&ps, o2, 32); ascon_prf_free(&ps);
+    in[m - 1] = 8; ascon_prf(o3, 32, in, m, key); in[m - 1] = 9;
+    verdict("prf-one-call", memcmp(o1, o2, 32) == 0, "ascon_prf over 2^32+5 bytes against two absorb calls");
+    verdict("prf-last-byte", memcmp(o1, o3, 32) != 0, "the last of 2^32+5 bytes influences the PRF output");
+    ascon_hmac(o1, key, 16, in, m);
+    ascon_hmac_init(&hs, key, 16); ascon_hmac_update(&hs, in, (size_t)1 << 31); ascon_hmac_update(&hs, in + ((size_t)1 << 31), m - ((size_t)1 << 31));
+    ascon_hmac_finalize(&hs, key, 16, o2); ascon_hmac_free(&hs);
+    in[m - 1] = 8; ascon_hmac(o3, key, 16, in, m);
+    verdict("hmac-one-call", memcmp(o1, o2, 32) == 0, "ascon_hmac over 2^32+5 bytes against two update calls");
+    verdict("hmac-last-byte", memcmp(o1, o3, 32) != 0, "the last of 2^32+5 bytes influences the HMAC");
+    munmap(in, m);
+}
+
 int main(int argc, char **argv) {
     const char *t = argc > 1 ? argv[1] : "";
     if (!strcmp(t, "xof")) xof();
     else if (!strcmp(t, "xofa")) xofa();
     else if (!strcmp(t, "siv128")) siv128();
     else if (!strcmp(t, "isap-ad")) isap_ad();
-    else { fprintf(stderr, "usage: x_huge xof|xofa|siv128|isap-ad\n"); return 2; }
+    else if (!strcmp(t, "aead128a")) aead128a();
+    else if (!strcmp(t, "prf-hmac")) prf_hmac();
+    else { fprintf(stderr, "usage: x_huge xof|xofa|siv128|isap-ad|aead128a|prf-hmac\n"); return 2; }
     return fails ? 1 : 0;
 }
